@@ -20,6 +20,8 @@ import dns.flags
 import dns.message
 import dns.name
 import dns.query
+import dns.renderer
+import dns.tsig
 import dns.rrset
 
 from lib import Err
@@ -100,6 +102,8 @@ def install():
     dns.query.time = _FakeTime
     dns.query.selectors = _FakeSelectors
     dns.asyncquery.time = _FakeTime
+    dns.message.time = _FakeTime  # TSIG signing / validation time follows the scripted clock
+    dns.renderer.time = _FakeTime
 
 
 install()
@@ -338,14 +342,108 @@ def abs_of_message(m):
 def message_of_abs(a, response=False):
     """A real Message object with the given header fields and question (used for the query and,
     in the is_response cases, for the response)."""
-    mid, flags, edns, qs = a
+    mid, flags, edns, qs = a[:4]
     m = dns.message.QueryMessage(id=mid)
     m.flags = dns.flags.Flag(flags)
     for labels, c, t in qs:
         m.question.append(dns.rrset.RRset(dns.name.Name(labels), c, t))
     if edns:
         m.use_edns(0, ednsflags=edns)
+    if len(a) > 4 and a[4]:
+        m.use_tsig(KEYRINGS[a[4]], KEYNAME)
     return m
+
+
+KEYNAME = dns.name.from_text("key.example.")
+KEYRINGS = {
+    1: {KEYNAME: dns.tsig.Key(KEYNAME, b"0123456789abcdef0123456789abcdef", "hmac-sha256")},
+    2: {KEYNAME: dns.tsig.Key(KEYNAME, b"another-secret-another-secret-00", "hmac-sha256")},
+}
+OTHERKEY = dns.name.from_text("other.example.")
+KEYRINGS[3] = {OTHERKEY: dns.tsig.Key(OTHERKEY, b"0123456789abcdef0123456789abcdef", "hmac-sha256")}
+
+
+def signed_reply(q, now, variant):
+    """A reply to the TSIG-signed query q (abstract, key 1), rendered and signed by dnspython
+    itself at scripted time `now`; returns (wire, pabs)."""
+    CLOCK.now = now
+    qm = message_of_abs(q)
+    qm.to_wire()
+    r = dns.message.make_response(qm)
+    owner = qm.question[0].name if qm.question else dns.name.root
+    r.answer.append(dns.rrset.from_text(owner, 300, "IN", "A", "10.0.0.7"))
+    err = None
+    if variant == "otherkey":
+        r.use_tsig(KEYRINGS[2], KEYNAME)
+        r.request_mac = qm.mac
+        err = 11
+    elif variant == "unknownkey":
+        r.use_tsig(KEYRINGS[3], OTHERKEY)
+        r.request_mac = qm.mac
+        err = 11  # the query's keyring is the single Key object: a different owner name is dns.tsig.BadKey
+    elif variant == "latesig":
+        CLOCK.now = now + 5000
+        err = 11
+    wire = r.to_wire()
+    CLOCK.now = now
+    if variant == "badmac":
+        b = bytearray(wire)
+        b[-10] ^= 0x40
+        wire = bytes(b)
+        err = 11
+    elif variant == "forged_id":
+        b = bytearray(wire)
+        b[1] ^= 1
+        wire = bytes(b)
+        # the MAC covers the *original* id kept in the TSIG record, so the signature still verifies;
+        # the message is simply not a response to this query any more
+        return wire, [0, [r.id ^ 1, int(r.flags), 0, q[3]], None, 0]
+    elif variant == "unsigned_requestmac":
+        # signed as if it answered a different request
+        r2 = dns.message.make_response(qm)
+        r2.answer = r.answer
+        r2.request_mac = b"\x00" * 32
+        wire = r2.to_wire()
+        err = 11
+    return wire, [0, [r.id, int(r.flags), 0, q[3]], err, 0]
+
+
+SIGNED_VARIANTS = ["good", "good", "good", "badmac", "otherkey", "unknownkey", "latesig", "forged_id", "unsigned_requestmac"]
+
+
+def tsig_cases(ctx, rng):
+    """exchanges whose query is TSIG-signed: udp()/tcp() must hand the keyring and the request MAC
+    to the parser, so that the properly signed reply is returned and the others are not"""
+    for i in range(ctx.n(40, 500)):
+        q = gen_query(rng)
+        while (q[1] >> 11) & 15 == 5 or not q[3]:
+            q = gen_query(rng)
+        q = [q[0], q[1], 0, q[3][:1], 1]  # one question: name compression may change the case of later ones
+        now = rng.choice([0, 500])
+        port = 53
+        dest = mk_addr("10.0.0.53", port)
+        evs, tab = [], {}
+        for j in range(rng.choice([1, 1, 2, 3])):
+            if rng.random() < 0.2:
+                evs.append([1, rng.choice([0, 1, 2, 5])])
+            v = rng.choice(SIGNED_VARIANTS)
+            wire, pabs = signed_reply(q, now, v)
+            ctx.count("dgram:signed/" + v)
+            tab[wire] = pabs
+            evs.append([0, wire, dest if rng.random() < 0.9 else mk_addr("10.0.0.54", port)])
+        CLOCK.now = now
+        qwire = message_of_abs(q).to_wire()
+        opts_list = rng.sample(OPTS, 6)
+        timeout = rng.choice([None, 20])
+        tabl = [[w, a] for w, a in tab.items()]
+        yield "udp_tsig", [5, q, qwire, dest, timeout, socket.AF_INET, opts_list, [], tabl, evs, now]
+        # the same replies over TCP, one exchange per reply
+        w0 = evs[-1][1]
+        stream = struct.pack("!H", len(w0)) + w0
+        revs = sprinkle(rng, [[0, rng.choice([1, 3, 50, 1000])] for _ in range(rng.randrange(6))], "r", 0.1)
+        yield "tcp_tsig", [9, q, qwire, timeout, 0, [], stream, revs, tabl, now]
+
+
 
 
 def wname(labels):
@@ -859,6 +957,7 @@ def cases(ctx):
         qwire = message_of_abs(q).to_wire()
         yield "tcp", [9, q, qwire, timeout, rng.randrange(2), wevs, stream, revs, [[x, y] for x, y in tab.items()], rng.choice([0, 500])]
     yield from fallback_cases(ctx, rng)
+    yield from tsig_cases(ctx, rng)
 
 
 def fallback_cases(ctx, rng):
